@@ -175,6 +175,15 @@ Section Paths.
   Definition find_mount (cwd : str) (keys : list str) (path : str) : option (str * str) :=
     mount_loop (mount_path cwd path) keys None.
 
+  (* two-path operations of VirtualOS (Rename, Symlink): EACH argument is looked up on its own, by the same findMount;
+     the operation is handed to a mount only when both lookups succeed and choose the same mount point.
+     Result: (mount target, first path, second path as handed to that mount's filesystem). *)
+  Definition mount_two (cwd : str) (keys : list str) (p1 p2 : str) : option (str * str * str) :=
+    match find_mount cwd keys p1, find_mount cwd keys p2 with
+    | Some (k1, r1), Some (k2, r2) => if str_eqb k1 k2 then Some (k1, r1, r2) else None
+    | _, _ => None
+    end.
+
   (* component-wise prefix *)
   Fixpoint seg_prefix (p l : list str) : bool :=
     match p, l with
